@@ -127,9 +127,11 @@ def stepSetIndex (m : M) (o k v : SVal) (depth : Nat) : Step :=
       | _ => goto_ m (.setIndex h k v (depth + 1))
 
 def stepCall (m : M) (f : SVal) (args : List SVal) : Step :=
+  let via := m.viaHost
+  let m := { m with viaHost := false }
   match f with
   | .fn id => callClosure m id args false
-  | .host name => hostCall m name args
+  | .host name => hostCall m name args via
   | _ =>
     let h := m.metaField f "__call"
     if h.isNil then fault m "attempt to call"
